@@ -15,6 +15,9 @@ pub struct Cfg {
     pub read_size: usize,
     pub min_pipeline: usize,
     pub threshold: usize,
+    /// write side of the scripted stream: bytes accepted per poll_write (0 = all) and "every n-th write is Pending once" (0 = never)
+    pub wcap: usize,
+    pub wpend: usize,
 }
 
 impl Cfg {
@@ -27,7 +30,7 @@ impl Cfg {
         }
     }
     fn json(&self) -> Value {
-        json!({"shards": self.shards, "read_size": self.read_size, "min_pipeline": self.min_pipeline, "threshold": self.threshold})
+        json!({"shards": self.shards, "read_size": self.read_size, "min_pipeline": self.min_pipeline, "threshold": self.threshold, "wcap": self.wcap, "wpend": self.wpend})
     }
     fn from_json(v: &Value) -> Cfg {
         Cfg {
@@ -35,6 +38,8 @@ impl Cfg {
             read_size: v["read_size"].as_u64().unwrap_or(8192) as usize,
             min_pipeline: v["min_pipeline"].as_u64().unwrap_or(60) as usize,
             threshold: v["threshold"].as_u64().unwrap_or(2) as usize,
+            wcap: v["wcap"].as_u64().unwrap_or(0) as usize,
+            wpend: v["wpend"].as_u64().unwrap_or(0) as usize,
         }
     }
 }
@@ -49,7 +54,9 @@ pub struct RunOut {
 /// Fresh server, one connection, chunks delivered exactly as given.
 pub async fn run_chunks(cfg: &Cfg, chunks: &[Vec<u8>]) -> RunOut {
     let state = ShardedActorState::with_shards(cfg.shards);
+    conn::set_default_write_mode(cfg.wcap, cfg.wpend);
     let (ctl, h) = conn::spawn_conn(state, cfg.conn());
+    conn::set_default_write_mode(0, 0);
     let mut hang = false;
     for c in chunks {
         ctl.send(c);
@@ -312,7 +319,9 @@ fn configs(rng: &mut Rng) -> Vec<Cfg> {
     for &shards in &[1usize, 4] {
         for &(mp, th) in &[(60usize, 2usize), (0, 1), (0, 2), (14, 2), (70, 6), (4096, 2), (0, 64)] {
             let rs = [16usize, 64, 8192][rng.gen_range(0..3)];
-            v.push(Cfg { shards, read_size: rs, min_pipeline: mp, threshold: th });
+            // a third of the runs write to a stream that takes a few bytes per call and sometimes says "not now"
+            let (wcap, wpend) = [(0usize, 0usize), (0, 0), (0, 0), (0, 0), (1, 0), (7, 3), (64, 0), (4096, 5)][rng.gen_range(0..8)];
+            v.push(Cfg { shards, read_size: rs, min_pipeline: mp, threshold: th, wcap, wpend });
         }
     }
     v
